@@ -796,6 +796,10 @@ impl Paragraph {
         for (pre, entry) in entries.into_iter() {
             for c in pre.into_iter() {
                 builder.token(c.kind().into(), c.as_token().unwrap().text());
+                if c.kind() == COMMENT {
+                    // the newline ending the comment line was not collected
+                    builder.token(NEWLINE.into(), "\n");
+                }
             }
 
             inject(
@@ -813,6 +817,9 @@ impl Paragraph {
 
         for c in current {
             builder.token(c.kind().into(), c.as_token().unwrap().text());
+            if c.kind() == COMMENT {
+                builder.token(NEWLINE.into(), "\n");
+            }
         }
 
         builder.finish_node();
